@@ -14,6 +14,9 @@ def dispatch (toks : List String) : String :=
   | "C03" :: rest => Poor.Drv.Wsgi.handle rest
   | "C04" :: rest => Poor.Drv.Wsgi.handle rest
   | "C05" :: rest => Poor.Drv.Wsgi.handleC05 rest
+  | "C02" :: rest => Poor.Drv.Route.handle rest
+  | "C19" :: rest => Poor.Drv.Route.handle rest
+  | "RE" :: rest => Poor.Drv.Route.handleRe rest
   | _ => "bad-op"
 
 partial def loop (h : IO.FS.Stream) (out : IO.FS.Stream) : IO Unit := do
